@@ -103,6 +103,37 @@ pub fn explore(ctx: &mut Ctx, label: &str) {
         }
     }
 
+    // ---- quick tier: all 5-term graphs with one or two annotated terms in both orders (the full D5 space is thorough)
+    if !thorough {
+        let n = 5;
+        let dags = all_dags(n);
+        ctx.space(&format!("{label}/builder/D5/one-or-two-annotated-terms"), &format!("{} labelled DAGs x 15 subsets S with |S| <= 2 x both orders of the gene's facts", dags.len()));
+        for d in &dags {
+            if !ctx.take() {
+                continue;
+            }
+            ctx.state();
+            if d.has_diamond() {
+                ctx.nontrivial();
+            }
+            let base = Facts::from_dag(d, &POOL);
+            let ids: Vec<u32> = base.terms.iter().map(|t| t.id).collect();
+            for s in 1..(1u32 << n) {
+                if s.count_ones() > 2 {
+                    continue;
+                }
+                let groups = AnnGroups::new(s, &ids);
+                let ident: Vec<usize> = (0..groups.g1.len()).collect();
+                let r = RefOnt::derive(&Facts { anns: groups.sequential(&ident), ..base.clone() });
+                for p in permutations(groups.g1.len()) {
+                    let f = Facts { anns: groups.sequential(&p), ..base.clone() };
+                    via_builder(ctx, &f, &r, Mode::Minimal, &format!("g1 order {p:?}"));
+                }
+            }
+            ctx.sample(|| json!({"dag": d.describe(), "ids": ids, "subsets": 15}));
+        }
+    }
+
     // ---- same record id supplied under different spellings of its name: which name survives is
     // unspecified (don't-care), everything else must still hold
     for n in 2..=3usize {
